@@ -56,6 +56,18 @@ func ApplyInclude(ctx context.Context, workingDir string, environment types.Mapp
 		return err
 	}
 
+	// workingDir is relative to the parent project when this model is itself included. Files named by an include
+	// entry (relative project_directory, relative env_file) live in the including project's own directory, which
+	// the local resource loader knows in absolute form; without this they were searched from the process working directory.
+	baseDir := workingDir
+	if !filepath.IsAbs(baseDir) {
+		for _, l := range options.ResourceLoaders {
+			if local, ok := l.(localResourceLoader); ok && local.WorkingDir != "" {
+				baseDir = local.WorkingDir
+			}
+		}
+	}
+
 	for _, r := range includeConfig {
 		for _, listener := range options.Listeners {
 			listener("include", map[string]any{
@@ -84,7 +96,7 @@ func ApplyInclude(ctx context.Context, workingDir string, environment types.Mapp
 						r.ProjectDirectory = filepath.Dir(path)
 					case !filepath.IsAbs(r.ProjectDirectory):
 						relworkingdir = loader.Dir(r.ProjectDirectory)
-						r.ProjectDirectory = filepath.Join(workingDir, r.ProjectDirectory)
+						r.ProjectDirectory = filepath.Join(baseDir, r.ProjectDirectory)
 
 					default:
 						relworkingdir = r.ProjectDirectory
@@ -120,7 +132,7 @@ func ApplyInclude(ctx context.Context, workingDir string, environment types.Mapp
 			envFile := []string{}
 			for _, f := range r.EnvFile {
 				if !filepath.IsAbs(f) {
-					f = filepath.Join(workingDir, f)
+					f = filepath.Join(baseDir, f)
 					s, err := os.Stat(f)
 					if err != nil {
 						return err
